@@ -45,7 +45,8 @@ def _is_location(v):
 
 
 class Expander(object):
-    def __init__(self, f, g=None, subst=None, depth=8, only_locations=False, inline=None):
+    def __init__(self, f, g=None, subst=None, depth=8, only_locations=False, inline=None, expand_names=True):
+        self.expand_names = expand_names  # False: only helper calls are inlined, local names stay
         self.inline = inline              # Program: calls of expression-like private helpers are replaced by their result expression
         self.f = f
         self.g = g or build_cfg(f)
@@ -149,6 +150,8 @@ class Expander(object):
 
     def _name(self, e, node, depth, busy):
         name = e.id
+        if not self.expand_names and name not in self.subst:
+            return e
         if name in busy or depth > self.max_depth or node is None:
             return e
         defs = list(reaching_defs(self.g, node, name))
